@@ -535,7 +535,16 @@ def build(routine, env, rec, cfg):
         def train_step(*a, **k):
             rec.on_update("td7-train-step")
             rec.trained += 1
-            epoch = sig.bind(*a, **k).arguments.get("epoch")
+            bound = sig.bind(*a, **k).arguments
+            epoch = bound.get("epoch")
+            pol, polt = bound.get("policy"), bound.get("policy_target")
+            parts = {"embedding": bound.get("embedding"), "critic": bound.get("critic"), "critic_target": bound.get("critic_target"),
+                     "policy.actor": getattr(pol, "actor", None), "policy.embedding": getattr(pol, "embedding", None),
+                     "policy_target.actor": getattr(polt, "actor", None), "policy_target.embedding": getattr(polt, "embedding", None)}
+            keys = sorted(parts)
+            same = [(x, y) for i, x in enumerate(keys) for y in keys[i + 1:] if parts[x] is not None and parts[x] is parts[y]]
+            if same:
+                rec.bad("wiring.online_fixed_and_target_modules_are_distinct_objects", f"train_td7 hands the same module object to its training iteration as {same}")
             if epoch != rec.epoch0 + rec.trained:
                 rec.bad("release.epoch_counts_training_iterations",
                         f"training iteration #{rec.trained} of this call runs with epoch={epoch}; epoch at entry max(0, start - learning_starts) = {rec.epoch0}")
@@ -725,6 +734,17 @@ def run_once(routine, cfg):
                                   detail=f"step index {s}: {got} target update(s), documented {want}"))
                     break
     if fam == "td7" and kw.get("use_checkpoints") and raised is None:
+        # C15 "none lost": every episode whose last step was taken once learning had started (terminated OR
+        # truncated) is handed to the assessment exactly once, right after that step
+        assessed_after = [a[0] for a in rec.assess]
+        for stp in env.steps:
+            if (stp["terminated"] or stp["truncated"]) and s0 + stp["index"] >= kw.get("learning_starts", 0):
+                n_after = assessed_after.count(stp["index"] + 1)
+                if n_after != 1:
+                    V.append(dict(clause="assess.every_episode_ending_after_warmup_is_assessed",
+                                  detail=f"episode {stp['episode']} ended at step index {s0 + stp['index']} ({'terminated' if stp['terminated'] else 'truncated'}), "
+                                         f"learning_starts={kw.get('learning_starts', 0)}: assessed {n_after} time(s)"))
+                    break
         if rec.trained != rec.released:
             V.append(dict(clause="release.training_iterations_equal_released_steps",
                           detail=f"{rec.trained} training iterations run, assess_performance_and_checkpoint released {rec.released}"))
@@ -800,7 +820,7 @@ def grid(routine, scen):
 FAMILIES = [
     ("post.accounting", "accounting"), ("post.budget", "budget"), ("step.pre.within_budget", "budget"), ("post.episodes", "episodes"),
     ("step.pre.episode_running", "typestate"), ("update.pre.warmup_met", "warmup"), ("store.pre.", "store"), ("act.pre.", "act"),
-    ("target.", "target"), ("no_uncaught_exception", "exception"), ("assess.pre.", "td7-release"), ("release.", "td7-release"),
+    ("target.", "target"), ("no_uncaught_exception", "exception"), ("assess.pre.", "td7-release"), ("assess.every", "td7-release"), ("release.", "td7-release"), ("wiring.", "td7-release"),
 ]
 
 
